@@ -3,6 +3,7 @@ package marching
 import (
 	"github.com/EliCDavis/polyform/math/geometry"
 	"github.com/EliCDavis/polyform/math/sample"
+	"github.com/EliCDavis/polyform/modeling"
 	zz "github.com/EliCDavis/polyform/zzverif"
 	"github.com/EliCDavis/vector/vector3"
 )
@@ -85,4 +86,60 @@ func ZZ_C10_AddFieldParallelTwoAttributes() {
 	zz.Reach("parallel")
 	zzSameCanvasAttr(seq, par, "f", "AddFieldParallel (two attributes, f)")
 	zzSameCanvasAttr(seq, par, "g", "AddFieldParallel (two attributes, g)")
+}
+
+// parallel marching: MarchParallel returns the same triangle multiset as March, for every sign pattern of a
+// 2x2x2 cluster that straddles block boundaries (block edge 4), every number of workers in the bound and every
+// explored schedule
+func ZZ_C10_MarchParallel() {
+	g := zzSymGrid(2, 2, 2, true)
+	c := NewMarchingCanvas(g.cpu)
+	c.AddField(g.field())
+	zz.Reach("sequential")
+	seq := c.March(g.cutoff)
+	par := c.MarchParallel(g.cutoff)
+	zz.Reach("parallel")
+	ts, tp := zzTriangles(seq), zzTriangles(par)
+	zz.Assert(len(ts) == len(tp), "MarchParallel: same number of triangles as March")
+	used := make([]bool, len(tp))
+	for _, a := range ts {
+		found := false
+		for j, b := range tp {
+			if !used[j] && a == b {
+				used[j] = true
+				found = true
+				break
+			}
+		}
+		zz.Assert(found, "MarchParallel: every triangle of March occurs (with multiplicity) in the parallel result")
+	}
+}
+
+type zzTri [9]float64
+
+// zzTriangles: triangles as corner positions, rotated so that the smallest corner comes first (orientation kept)
+func zzTriangles(m modeling.Mesh) []zzTri {
+	idx := m.Indices()
+	if idx.Len() == 0 || !m.HasFloat3Attribute(modeling.PositionAttribute) {
+		return nil
+	}
+	pos := m.Float3Attribute(modeling.PositionAttribute)
+	var out []zzTri
+	for t := 0; t+2 < idx.Len(); t += 3 {
+		p := [3]vector3.Float64{pos.At(idx.At(t)), pos.At(idx.At(t + 1)), pos.At(idx.At(t + 2))}
+		first := 0
+		for k := 1; k < 3; k++ {
+			a, b := p[k], p[first]
+			if a.X() < b.X() || (a.X() == b.X() && (a.Y() < b.Y() || (a.Y() == b.Y() && a.Z() < b.Z()))) {
+				first = k
+			}
+		}
+		var tr zzTri
+		for k := 0; k < 3; k++ {
+			q := p[(first+k)%3]
+			tr[3*k], tr[3*k+1], tr[3*k+2] = q.X(), q.Y(), q.Z()
+		}
+		out = append(out, tr)
+	}
+	return out
 }
